@@ -22,7 +22,7 @@ var fuzzSeeds = []string{
 	"2020/01/01\r\n  1h\r\n\r\n2020/01/02\r\n  2h\r\n", "1999-12-31\n\t23:00 - 24:00\n\n2000-01-01\n\t<24:00-0:01\n", "2020-01-01\n    12:00am - 12:00pm #a=\"b c\"\n",
 	"2020-01-01\n\t1h foo\xff", "\xff", "2020-01-01\n\t153722867280912930h\n", "2020-01-01\n    1h\n         ", "2020-01-01\n  1h\n\n2020-01-02\n\t1h\n", "  \n2020-01-01\n\t1h\n",
 	"2020-01-01\n\t1h\nüü", "2020-01-01\r\n\r\n2020-01-02\r\n\r\n\r\n2020-01-03\r\n\t1h 123456789\r\n", "2020-01-01\n\t1h foo � bar\n", "2020-01-01 (!)", "2020-13-01\n", "Hello\n", "2020-01-01\n\t8:00 - ?\n\t9:00 - ?\n",
-	"2020-01-01\n\t1h\n\n\n\t2h\n", "0000-01-01\n\t0m\n", "9999-12-31\n\t24:00 - 24:00\n", "2020-01-01\nfoo\r\r\n", "2020-01-01\n\t1h\x00\x1b[31m\n",
+	"2020-01-01\n\t1h\n\n\n\t2h\n", "0000-01-01\n\t0m\n", "9999-12-31\n\t0:30> - ?\n", "0000-01-01\n\t<23:00 - <23:30\n", "9999-12-31\n\t23:00 - 0:30>\n\n9999-12-30\n\t1:00> - ?\n", "9999-12-31\n\t24:00 - 24:00\n", "2020-01-01\nfoo\r\r\n", "2020-01-01\n\t1h\x00\x1b[31m\n",
 }
 
 func fuzzFail(t *testing.T, id string, c any, err error) {
